@@ -201,6 +201,8 @@ class Monitor(object):
         if d is not None:
             ok = False
             key = 'display:pixels:after-%s' % dom if dom != 'no-signal' else 'display:pixels:changed-without-signal'
+            if self.dbcs:
+                key += ':dbcs'
             if d[0] == 'size':
                 key = 'display:canvas-size'
                 what = 'reported %dx%d, display was told %dx%d' % (d[2], d[1], d[4], d[3])
@@ -377,7 +379,7 @@ class Gen(object):
             return b'FOR I=1 TO %d:PRINT I;"%s":NEXT' % (r.randint(2, 28), rstr_dbcs(r, r.randint(2, 40)))
         if k < 0.93:
             return b'DEF SEG=&H%s:POKE %d,%d:DEF SEG' % (b'B000' if self.adapter in ('mda', 'hercules', 'egamono') else b'B800',
-                                                       2 * r.randint(0, 1999), r.choice([r.randint(0x81, 0xfe), r.choice(PRINTABLE)]))
+                                                       2 * r.randint(0, 1999) + r.randint(0, 1), r.choice([r.randint(0x81, 0xfe), r.choice(PRINTABLE), r.randint(0, 127)]))
         return r.choice([b'PCOPY %d,%d' % (r.randint(0, 3), r.randint(0, 3)), b'SCREEN ,,%d,%d' % (r.randint(0, 3), r.randint(0, 3)),
                          b'VIEW PRINT %d TO %d' % (r.randint(1, 10), r.randint(11, 24)), b'VIEW PRINT', b'CLS'])
 
@@ -679,6 +681,13 @@ def directed_dbcs(harness, res):
                     stm.append(b'LOCATE 5,%d:PRINT %s;' % (col0 + off, over))
                     if off % 3 == 2:
                         stm.append(b'LOCATE 5,%d:PRINT "%s";' % (col0, run_))
+            # attribute-only changes of one half of a double-byte character (text-memory POKE, re-PRINT in another colour)
+            stm += [b'LOCATE 7,1:PRINT "%s";' % run_]
+            for off in range(len(run_)):
+                stm.append(b'DEF SEG=&H%s:POKE %d,&H70:DEF SEG' % (b'B000' if adapter in ('mda', 'hercules', 'egamono') else b'B800', 6 * 160 + 2 * off + 1))
+            stm += [b'LOCATE 9,1:PRINT "%s";' % run_]
+            for off in range(len(run_)):
+                stm.append(b'LOCATE 9,%d:COLOR 0,7:PRINT CHR$(%d);:COLOR 7,0' % (off + 1, run_[off]))
             stm += [b'LOCATE 24,1:PRINT "%s"' % run_, b'PRINT "%s"' % (run_ * 9), b'LOCATE 22,3:PRINT %s;' % over,
                     b'SCREEN ,,1,0', b'PRINT "%s"' % run_, b'PCOPY 1,0', b'SCREEN ,,0,0', b'LOCATE 1,2:PRINT %s;' % over]
             stm = [(c, None, None) for c in stm]
